@@ -56,7 +56,19 @@ def plan(tier, seed):
         k2_vecs = [("shipped", True, 10, 1.0), ("random", False, 10, 0.5), ("dummy", False, 0, 1.0), ("shipped", False, 1, 0.5)]
         k1_ts = [edge[3], edge[6], edge[4]]
 
+    from .. import grammar
+
+    edge_texts = []
+    for _, g in grammar.sentences():
+        for dsh in ("-", "\u2013"):
+            edge_texts.append("{} zzq {}".format(dsh, g))
+            edge_texts.append("{} zzq {}".format(g, dsh))
+
     def gen():
+        # a separator at the very edge of the text (the subject is built differently on the two entry points if one strips it)
+        for t in edge_texts:
+            for sc in ("shipped", "dummy"):
+                yield (t, edge[3], sc, True, 10, 1.0, seed)
         for t in k1:
             for ts in k1_ts:
                 for sc, lat, d, rml in itertools.product(SCORERS, (True, False), depths_full, (1.0, 0.5)):
@@ -95,6 +107,12 @@ def run_case(case):
         cp(text, ts=ts, scorer=_mk(sc, seed + 7919), **kw)
     L = [c for c in gen(text, ts=ts, scorer=_mk(sc, seed), **kw)]
     r = cp(text, ts=ts, scorer=_mk(sc, seed), **kw)
+    # debug=True hands back the candidate stream itself: it must be THE stream of the same arguments
+    D = [c for c in cp(text, ts=ts, scorer=_mk(sc, seed), debug=True, **kw)]
+    if [_o(c) for c in D if c is not None] != [_o(c) for c in L if c is not None]:
+        dl, ll = [_o(c) for c in D if c is not None], [_o(c) for c in L if c is not None]
+        k = next((i for i in range(min(len(dl), len(ll))) if dl[i] != ll[i]), min(len(dl), len(ll)))
+        v.append(viol({"kind": "debug_stream_differs", "scorer": sc}, "{!r} @{} scorer={} latent={} depth={} rml={}: ctparse(debug=True) candidate {} is {} but ctparse_gen yields {}".format(text, ts_s, sc, lat, d, rml, k, dl[k] if k < len(dl) else None, ll[k] if k < len(ll) else None)))
     sig = {"scorer": sc}
     desc = "{!r} @{} scorer={} latent={} depth={} rml={}".format(text, ts_s, sc, lat, d, rml)
     L = [c for c in L if c is not None]
